@@ -10,9 +10,27 @@
 #include "rkcommon/os/FileName.cpp"
 #include "rkcommon/common.h"
 #include "rkcommon/common.cpp"
+#include "rkcommon/utility/ArgumentList.h"
+#ifdef VP_NATIVE_BUILD
+// only to link the native replay build (common.cpp refers to LibraryRepository; never called by these harnesses)
+namespace rkcommon { LibraryRepository *LibraryRepository::getInstance() { return nullptr; }
+  void LibraryRepository::add(const void *, const std::string &, const std::vector<int> &) {} void LibraryRepository::remove(const std::string &) {}
+  void *LibraryRepository::getSymbol(const std::string &) const { return nullptr; } }
+#endif
 using namespace rkcommon;
 
+// under the path engine (VP_PATH) the characters are arbitrary non-NUL bytes; under cbmc a small alphabet
 template <int N> static std::string sym(const char *alphabet, int na)
+{
+  std::string s; s.resize(N);
+#ifdef VP_PATH
+  for (int i = 0; i < N; i++) { char c = (char)vp_nondet_u8(); vp_assume(c != 0); s[i] = c; }
+#else
+  for (int i = 0; i < N; i++) { unsigned k = vp_choose(na); s[i] = alphabet[k]; }
+#endif
+  return s;
+}
+template <int N> static std::string symab(const char *alphabet, int na)
 {
   std::string s; s.resize(N);
   for (int i = 0; i < N; i++) { unsigned k = vp_choose(na); s[i] = alphabet[k]; }
@@ -53,7 +71,7 @@ template <int N> static void t_split()
   }
   vp_reach("end");
 }
-#define LENS(M) M(0) M(1) M(2) M(3) M(4)
+#define LENS(M) M(0) M(1) M(2) M(3) M(4) M(5) M(6)
 #define TOK_E(N) VP_ENTRY vp_main_tokenize_##N() { t_tokenize<N>(); } VP_ENTRY vp_main_split_##N() { t_split<N>(); }
 LENS(TOK_E)
 
@@ -99,16 +117,16 @@ template <int N> static void t_filename()
   size_t dot = b.rfind('.');
   if (dot == std::string::npos) { vp_assert(ex.empty(), "no dot in the last component: no extension"); vp_assert(nm == b, "no dot: name() == base()"); vp_assert(f.dropExt().str() == full, "no dot: dropExt changes nothing"); }
   else { vp_assert(ex == b.substr(dot + 1), "ext() is taken from the last component only"); vp_assert(nm == b.substr(0, dot), "name() is the last component without its extension");
-         vp_assert(nm + "." + ex == b, "base() == name() + '.' + ext()"); vp_assert(f.dropExt().str() == p + nm, "dropExt removes only the last component's extension"); }
+         vp_assert(nm + "." + ex == b, "base() == name() + '.' + ext()"); vp_assert(f.dropExt().str() == FileName(p + nm).str(), "dropExt removes only the last component's extension (result normalised like every FileName)"); }
   vp_reach("end");
 }
 #define FN_E(N) VP_ENTRY vp_main_filename_##N() { t_filename<N>(); }
-FN_E(1) FN_E(2) FN_E(3) FN_E(4) FN_E(5)
+FN_E(1) FN_E(2) FN_E(3) FN_E(4) FN_E(5) FN_E(6)
 
 VP_ENTRY vp_main_filename_compose()
 {
   vp_nothrow(true);
-  std::string a = sym<2>("a.", 2), e = sym<1>("bc", 2);
+  std::string a = symab<2>("a.", 2), e = symab<1>("bc", 2);
   FileName f(a);
   FileName g = f.addExt("." + e);
   vp_assert(g.str() == a + "." + e, "addExt appends");
@@ -133,3 +151,48 @@ VP_ENTRY vp_main_removeargs()
   for (int i = 0; i < ac; i++) vp_assert(av[i] == names[i < where ? i : i + how], "removeArgs keeps exactly the unconsumed arguments in their original order");
   vp_reach("end");
 }
+
+#ifdef VP_PATH
+// PseudoURL: a URL assembled from a type, a file name and two name=value pairs parses back into exactly those parts, the last duplicate winning
+static std::string letters(int n, const char *alphabet, int na) { std::string s; for (int i = 0; i < n; i++) s.push_back(alphabet[vp_choose(na)]); return s; }
+VP_ENTRY vp_main_url()
+{
+  int tl = (int)vp_choose(3), fl = 1 + (int)vp_choose(2), v1l = (int)vp_choose(2), v2l = (int)vp_choose(2);
+  bool has_type = vp_nondet_bool(), eq1 = vp_nondet_bool();
+  std::string type = has_type ? letters(tl, "ab", 2) : std::string(), file = letters(fl, "f./", 3);
+  std::string n1 = letters(1, "xy", 2), n2 = letters(1, "xy", 2), v1 = letters(v1l, "vw=", 3), v2 = letters(v2l, "vw", 2);
+  vp_assume(eq1 || v1.empty());
+  std::string url = (has_type ? type + "://" : std::string()) + file + ":" + n1 + (eq1 ? "=" + v1 : std::string()) + ":" + n2 + "=" + v2;
+  vp_assume(has_type || file.find("://") == std::string::npos);
+  utility::PseudoURL u(url);
+  vp_assert(u.getType() == type, "PseudoURL: the type is what precedes '://' (empty when there is none)");
+  vp_assert(u.getFileName() == file, "PseudoURL: the file name is the first colon-separated component after the type");
+  vp_assert(u.hasParam(n1) && u.hasParam(n2), "PseudoURL: every name=value pair is a parameter (also 1-character ones)");
+  vp_assert(u.getValue(n2) == v2, "PseudoURL: getValue returns the value of the last pair with that name");
+  if (n1 != n2) vp_assert(u.getValue(n1) == v1, "PseudoURL: getValue returns the pair's value (everything after the first '=')");
+  bool threw = false;
+  try { u.getValue("q"); } catch (const std::runtime_error &) { threw = true; }
+  vp_assert(threw && !u.hasParam("q"), "PseudoURL: an unspecified parameter is reported by exception");
+  vp_reach("end");
+}
+
+// ArgumentList / parseAndRemove: exactly the unconsumed arguments remain, in their original order
+struct SymParser : utility::ArgumentsParser {
+  int want[6];
+  int tryConsume(utility::ArgumentList &l, int id) override { int orig = l[id][0] - '0'; int w = want[orig]; int left = l.size() - id; return w < left ? w : left; }
+};
+VP_ENTRY vp_main_arglist()
+{
+  const char *names[6] = {"prog", "1", "2", "3", "4", "5"};
+  int ac = 1 + (int)vp_choose(5);
+  utility::ArgumentList l(ac, names);
+  vp_assert(l.size() == ac - 1 && l.empty() == (ac == 1), "ArgumentList drops av[0] and keeps the rest");
+  SymParser p; for (int i = 0; i < 6; i++) p.want[i] = (int)vp_choose(3);
+  // reference: walk the original indices
+  int keep[6], nk = 0; for (int i = 1; i < ac;) { int w = p.want[i]; int left = ac - i; int c = w < left ? w : left; if (c == 0) { keep[nk++] = i; i++; } else i += c; }
+  p.parseAndRemove(l);
+  vp_assert(l.size() == nk, "parseAndRemove removes exactly the consumed arguments");
+  for (int k = 0; k < nk && k < l.size(); k++) vp_assert(l[k] == names[keep[k]], "the unconsumed arguments stay in their original order");
+  vp_reach("end");
+}
+#endif
